@@ -104,7 +104,7 @@ Definition sp_create (t : spec) (fid : N) (name : bstr) (mode : N) (ts : list to
       else (Spec (tab t) (snext t + 1), RErr ENil)
   end.
 
-Definition sp_read (t : spec) (fid : N) (ts : list tok) : spec * result :=
+Definition sp_read (t : spec) (fid cnt : N) (ts : list tok) : spec * result :=
   match sp_lookup t fid with
   | None => (t, RErr EUnknown)
   | Some b =>
@@ -113,7 +113,7 @@ Definition sp_read (t : spec) (fid : N) (ts : list tok) : spec * result :=
       | Some (m, done) =>
           if N.land m 3 =? 1 then (t, RErr ENoread)
           else if b_dir b then
-            if done then (t, ROk 0)
+            if done || (cnt =? 0) then (t, ROk 0)
             else if fs_err (tokn ts 0) then (t, RErr EFs)
             else (sp_bind fid (Bind (b_ent b) true (Some (m, true))) t, ROk 0)
           else (t, if fs_err (tokn ts 0) then RErr EFs else ROk 0)
@@ -153,7 +153,7 @@ Definition sp_step (t : spec) (o : op) (ts : list tok) : spec * result :=
   | OWalk fid newfid names => sp_walk t fid newfid names ts
   | OOpen fid mode => sp_open t fid mode ts
   | OCreate fid name mode => sp_create t fid name mode ts
-  | ORead fid => sp_read t fid ts
+  | ORead fid cnt => sp_read t fid cnt ts
   | OWrite fid => sp_write t fid ts
   | OStat fid | OWStat fid => sp_stat t fid ts
   | OClunk fid | ORemove fid => sp_del t fid ts
